@@ -941,6 +941,7 @@ def m_fields(I, args, kwargs):
 
 
 def m_object_setattr(I, args, kwargs):
+    I.note_write(args[0], f"object.__setattr__ .{args[1]}")
     try:
         object.__setattr__(*args)
     except Exception as e:
